@@ -54,3 +54,39 @@ ref_crc32c_expected(const uint8_t * data, size_t n, uint8_t crc[4])
 		if ((r >> (31 - j)) & 1)
 			crc[j / 8] |= (uint8_t)(1u << (j % 8));
 }
+
+/* a * b mod p (polynomials of degree < 32 over GF(2)), schoolbook: Horner over the bits of b. */
+static uint32_t
+mulmod(uint32_t a, uint32_t b)
+{
+	uint32_t r = 0;
+	int i;
+
+	for (i = 31; i >= 0; i--) {
+		r = feed(r, 0);			/* r = r * x mod p */
+		if ((b >> i) & 1)
+			r ^= a;
+	}
+	return (r);
+}
+
+uint32_t
+ref_crc32c_remainder_rep(const uint8_t * head, size_t nh, const uint8_t * blk, size_t nb, uint64_t reps,
+    const uint8_t * tail, size_t nt, const uint8_t crc[4])
+{
+	uint32_t r = 0, xb = 1, bpoly;
+	uint64_t i;
+	size_t j;
+
+	r = feed(r, 1);
+	r = feed_bytes(r, head, nh);
+	/* R(A || B) = R(A) * x^(8|B|) + B(x)  (mod p) */
+	for (j = 0; j < nb * 8; j++)
+		xb = feed(xb, 0);		/* x^(8 nb) mod p */
+	bpoly = feed_bytes(0, blk, nb);
+	for (i = 0; i < reps; i++)
+		r = mulmod(r, xb) ^ bpoly;
+	r = feed_bytes(r, tail, nt);
+	r = feed_bytes(r, crc, 4);
+	return (r);
+}
